@@ -257,6 +257,11 @@ func (dsm *DsManager) DeleteDataset(name string) error {
 	}
 
 	existingDataset := dsm.GetDataset(name)
+	// wait for a writer of the dataset, as UpdateDataset does: a batch that has committed still updates
+	// the items counter in the dataset's meta-entity (read, add, store) while it holds this lock. Deleted
+	// in between, the meta-entity of the deleted dataset was stored as live again
+	existingDataset.WriteLock.Lock()
+	defer existingDataset.WriteLock.Unlock()
 	existingDataset.markedForDeletion = true
 
 	// delete from local cache
